@@ -24,7 +24,7 @@ Tr == Traces[tid]
 
 TInit == Init /\ tid \in 1..Len(Traces) /\ l = 1 /\ verdict = <<"ok", "">>
 
-Fr(j) == [src |-> j.src, dst |-> j.dst, typ |-> j.typ, id |-> j.id, msg |-> j.msg]
+Fr(j) == [src |-> j.src, dst |-> j.dst, typ |-> j.typ, rsv |-> j.rsv, id |-> j.id, msg |-> j.msg]
 
 OwedClause(n) ==
   CASE tx[n].role = "fwd"   -> <<"C05.RouterForwards", "a frame taken for forwarding was never transmitted">>
@@ -80,7 +80,8 @@ RetV(e) ==
        IF e.res THEN <<"C13.TrueOnlyIfArrived", "write() returned True while no NETWORK_ACK had arrived">> ELSE <<"ok", "timeout">>
   ELSE IF res[n] = "none" THEN <<"C05.Delivered", "write() returned without transmitting">>
   ELSE IF e.res /\ res[n] = "F" THEN
-       IF IsAckT(call[n].typ) /\ Routed(call[n]) THEN <<"C13.TrueOnlyIfArrived", "True although the wait ended without a NETWORK_ACK">>
+       IF IsAckT(call[n].typ) /\ Routed(call[n]) /\ tx[n] = NoTx /\ NFrags(call[n]) = 1
+       THEN <<"C13.TrueOnlyIfArrived", "True although the wait ended without a NETWORK_ACK">>
        ELSE <<"C05.ReturnTrue", "True although the first hop never acknowledged">>
   ELSE IF ~e.res /\ res[n] = "T" THEN
        IF popped[n] THEN <<"C13.TrueOnlyIfArrived", "False although a NETWORK_ACK addressed to the sender arrived in time">>
@@ -113,7 +114,7 @@ EndV ==
 TimeoutReturn(n) ==      \* Timeout(n) . Return(n): the wait gave up and write() reported False
   /\ rets' = rets \cup {[f |-> call[n], res |-> "F", popped |-> popped[n]]}
   /\ call' = [call EXCEPT ![n] = NoFrame] /\ wait' = [wait EXCEPT ![n] = NoFrame]
-  /\ UNCHANGED <<rx, q, tx, res, nw, loss, acks, deliv, popped, mlvl>>
+  /\ UNCHANGED <<rx, q, tx, res, cache, nw, loss, acks, deliv, popped, mlvl, heard>>
 
 Step ==
   /\ verdict[1] = "ok" /\ l <= Len(Tr.ev) /\ l' = l + 1 /\ tid' = tid
@@ -145,7 +146,8 @@ Step ==
            ELSE UNCHANGED vars /\ verdict' = DeqV(e)
      \/ /\ e.k = "inject"          \* environment: a frame sent by a neighbour outside the modelled tree enters a radio
         /\ IF Len(rx[e.m]) < FIFO
-           THEN /\ rx' = [rx EXCEPT ![e.m] = Append(@, Fr(e.f))] /\ UNCHANGED <<q, tx, wait, res, call, hvars>>
+           THEN /\ rx' = [rx EXCEPT ![e.m] = Append(@, Fr(e.f))] /\ heard' = heard \cup {<<e.m, Fr(e.f)>>}
+                /\ UNCHANGED <<q, tx, wait, res, call, cache, nw, loss, acks, deliv, rets, popped, mlvl>>
                 /\ verdict' = verdict
            ELSE UNCHANGED vars /\ verdict' = <<"drift.Fifo", "injection into a full FIFO">>
      \/ /\ e.k = "end" /\ UNCHANGED vars /\ verdict' = EndV
